@@ -250,3 +250,61 @@ func VH_C05_Range() {
 	symAssert(err == nil, "no-error")
 	symAssert(out == []string{"1", "2", "3"}[q], "element-count")
 }
+
+// ---- C05.args: context values in argument positions of filters, functions, tests and operators -----
+var vhC05ArgTpl = []string{
+	"{{ 'a,b-c'|split(v) }}", "{{ 'a,b-c'|split(v, w) }}", "{{ 'a,b'|split(',', v) }}", "{{ 'abab'|replace(v, w) }}", "{{ ' ab '|trim(v) }}", "{{ 'ab'|trim(v, w) }}",
+	"{{ '2024-03-05'|date(v) }}", "{{ '2024-03-05'|date(v, w) }}", "{{ v|date('Y') }}", "{{ 'ab' matches v }}", "{{ v matches w }}", "{{ 'a%sb'|format(v) }}", "{{ v|format(w, w) }}",
+	"{{ 'abc'|slice(v, w) }}", "{{ [1, 2, 3]|slice(v, w)|length }}", "{{ [1, 2]|join(v) }}", "{{ [1, 2]|join(v, w) }}", "{{ 1234.5|number_format(v, w, w) }}", "{{ 12.5|round(v) }}", "{{ 12.5|round(v, w) }}",
+	"{{ range(v, 3)|length }}", "{{ range(1, v)|length }}", "{{ range(1, 3, v)|length }}", "{{ range('a', v)|length }}",
+	"{{ 'a'|default(v) }}", "{{ max(v, w) }}", "{{ min([v, w]) }}", "{{ cycle([1, 2], v) }}", "{{ 'a b'|title|striptags(v) }}", "{{ 'a'|url_encode(v) }}", "{{ 'a'|e(v) }}", "{{ 'a'|escape(v) }}",
+	"{{ 5 is divisible_by(v) }}", "{{ 'a' is same_as(v) }}", "{{ 'ab' starts with v }}", "{{ 'ab' ends with v }}", "{{ 'a' in v }}", "{{ v in 'ab' }}", "{{ 5 % v }}", "{{ 5 / v }}",
+	"{{ [3, 1]|sort(v)|length }}", "{{ [1, 2]|reverse(v)|length }}", "{{ {'a': 1}|merge(v)|length }}", "{{ [1]|merge(v)|length }}", "{{ 'ab'|first(v) }}", "{{ [1, 2]|column(v)|length }}", "{{ 'a'|nl2br(v) }}",
+	"{{ 'x'|length(v) }}", "{{ include(v, w) }}", "{{ 'a'|convert_encoding(v, w) }}", "{{ 'a'|capitalize(v) }}", "{{ 'a'|upper(v) }}", "{{ v[w] }}", "{{ 'abc'[v] }}", "{{ [1, 2][v] }}", "{{ v ? w : v }}", "{{ v ?: w }}", "{{ v ?? w }}",
+}
+
+func vhC05Arg(nshapes int, small bool) (interface{}, string) {
+	switch symChoice(nshapes) {
+	case 0:
+		return symStringIn(symChoice(3), "a-%[\\,\xc3\xff"), "string"
+	case 1:
+		if small {
+			return []int{0, 1, -1, 3}[symChoice(4)], "int"
+		}
+		return []int{0, 1, -1, 3, 9223372036854775807, -9223372036854775808}[symChoice(6)], "int"
+	case 2:
+		return nil, "nil"
+	case 3:
+		return []interface{}{symStringIn(1, "a-["), 2}, "list"
+	case 4:
+		if small {
+			return []float64{0, -0.5, 2.5}[symChoice(3)], "float"
+		}
+		return []float64{0, -0.5, 1e300, 2.5}[symChoice(4)], "float"
+	}
+	return map[string]interface{}{"a": 1}, "map"
+}
+
+// VH_C05_Args: every template of the argument corpus with every pair of value shapes for v and w.
+func VH_C05_Args() {
+	t := symParam("T", -1)
+	if t < 0 {
+		t = symChoice(len(vhC05ArgTpl))
+	}
+	symTag("tpl:" + vhC05ArgTpl[t])
+	// range() allocates what it is asked for: huge requests are resource use, not a hang (outside)
+	small := len(vhC05ArgTpl[t]) > 8 && vhC05ArgTpl[t][:8] == "{{ range"
+	v, sv := vhC05Arg(6, small)
+	w, sw := vhC05Arg(3, small)
+	symTag("v:" + sv + " w:" + sw)
+	e := New()
+	e.RegisterString("inc", "i{{ q }}")
+	if e.RegisterString("t", vhC05ArgTpl[t]) != nil {
+		symCover("rejected-at-parse")
+		return
+	}
+	_, _ = e.Render("t", map[string]interface{}{"v": v, "w": w})
+	symCover("rendered")
+	out, err := e.Render("inc", map[string]interface{}{"q": "Q"})
+	symAssert(err == nil && out == "iQ", "engine-usable-afterwards")
+}
